@@ -1,5 +1,6 @@
 (* C21/C19 driver glue around the extracted models (names_model.ml).
-   argv[1] = "0" | "1": variant of eraseTermName (0 = code as it is, 1 = repaired).
+   argv[1]: variant bits.  T/D cases: "<erase><guard>" (eraseTermName repaired / popScope guarded);
+   B cases: "<erase><assert><pop><names><guard>" (the fields of InterpBook.fixes).  0 = code as it is.
    Same line protocol as harness/h_names.cc (T and D cases). *)
 open Names_model
 
@@ -34,7 +35,7 @@ let split2 s = (* "<a>,<b>" after the op letter *)
   match String.split_on_char ',' (String.sub s 1 (String.length s - 1)) with
   | [a; b] -> (int_of_string a, int_of_string b) | _ -> failwith "op"
 
-let case_t fx toks =
+let case_t fx fs toks =
   match toks with
   | nn :: nt :: ops ->
     let nn = int_of_string nn and nt = int_of_string nt in
@@ -47,7 +48,7 @@ let case_t fx toks =
            let (x', ok) = try_insert (n_of_int n) (n_of_int t) !x in
            x := x'; Buffer.add_string buf (if ok then "1" else "0")
          | 'u' -> x := push_scope !g !x; Buffer.add_string buf "-"
-         | 'o' -> (match pop_scope fx !g !x with
+         | 'o' -> (match pop_scope fx fs !g !x with
              | Some x' -> x := x'; Buffer.add_string buf "-"
              | None -> Buffer.add_string buf "UB")
          | 'e' -> let n = int_of_string (String.sub op 1 (String.length op - 1)) in
@@ -173,12 +174,13 @@ let () =
   let arg = if Array.length Sys.argv > 1 then Sys.argv.(1) else "0" in
   let fx = arg.[0] = '1' in
   let g i = String.length arg > i && arg.[i] = '1' in
-  let fixes = { fx_erase = g 0; fx_assert = g 1; fx_pop = g 2; fx_names = g 3 } in
+  let fixes = { fx_erase = g 0; fx_assert = g 1; fx_pop = g 2; fx_names = g 3; fx_guard = g 4 } in
+  let fs = g 1 in
   try while true do
       let l = input_line stdin in
       if String.length l > 2 && l.[0] = 'B' && l.[1] = ' ' then case_b fixes l
       else match List.filter (fun s -> s <> "") (String.split_on_char ' ' l) with
-      | "T" :: r -> case_t fx r
+      | "T" :: r -> case_t fx fs r
       | "D" :: r -> case_d r
       | _ -> print_endline "bad"
     done with End_of_file -> ()
